@@ -340,7 +340,8 @@ def run_case(ch: Choices, params: dict) -> dict:
     probes = {"op_after_failure": 0, "same_def_compiled>=3": 0, "struct_checked>=3": 0,
               "name_shared_across_modules": 0, "nested_shadows_module_level": 0,
               "failing_ops": 0, "ok_ops": 0, "final_round_ops": 0, "reference_forks": 0,
-              "self_references": 0, "ops_vs_fresh_reference": 0, "ops_vs_first_occurrence": 0}
+              "self_references": 0, "ops_vs_fresh_reference": 0, "ops_vs_first_occurrence": 0,
+              "repeat_right_after_failure": 0}
     # ---- raw history draws (resolved against the pool once it exists)
     n_ops = ch.rng_int(params.get("min_ops", 6), params.get("max_ops", 24), "n_ops")
     if ch.draw(10, "short_history") < 7:
@@ -398,18 +399,18 @@ def run_case(ch: Choices, params: dict) -> dict:
             op = OPS[op_raw % 3]
         else:
             op = OPS[op_raw % 2]
-        history.append((pi, op))
+        history.append((pi, op, again))
     # once the faults stop: a final round over (up to 5 drawn) definitions
     order = ch.shuffle(list(range(len(pool))), "final_order")[:5]
-    final = [(pi, "compile_function") for pi in sorted(order)]
+    final = [(pi, "compile_function", 0) for pi in sorted(order)]
     # ---- references, each in a sibling forked from this pristine point.  A reference
     # fork costs about as much as 7 ops, so only `max_refs` pairs get a true fresh-session
     # reference: those whose first occurrence in the history is latest (most exposed to
     # what came before).  For the other pairs the first occurrence in the history serves
     # as the reference (self-consistency: every later occurrence must equal it).
     first_pos: dict[tuple[int, str], int] = {}
-    for pos, key in enumerate(history + final):
-        first_pos.setdefault(key, pos)
+    for pos, (pi_, op_, _a) in enumerate(history + final):
+        first_pos.setdefault((pi_, op_), pos)
     by_exposure = sorted(first_pos, key=lambda k: (-first_pos[k], k))
     max_refs = params.get("max_refs", 6)
     refs: dict[tuple[int, str], dict] = {}
@@ -426,7 +427,13 @@ def run_case(ch: Choices, params: dict) -> dict:
     steps = 0
     rendered = []
     for phase, ops in (("history", history), ("final", final)):
-        for pi, op in ops:
+        prev = None
+        for pi, op, again in ops:
+            if prev is not None and prev[2] and again == 2:
+                # right after a failure: the same op once more, before anything else can
+                # repair (or overwrite) what the failure left behind
+                pi, op = prev[0], prev[1]
+                probes["repeat_right_after_failure"] += 1
             steps += 1
             mi, name = pool[pi]
             got = do_op(getattr(mods[mi], name), op)
@@ -451,6 +458,7 @@ def run_case(ch: Choices, params: dict) -> dict:
                 probes["ok_ops"] += 1
             if phase == "final":
                 probes["final_round_ops"] += 1
+            prev = (pi, op, got["kind"] != "ok")
             if not same(ref, got):
                 cls = classify(ref, got)
                 detail = {"step": steps, "op": f"m{mi}.{name}.{op}()", "phase": phase,
